@@ -373,6 +373,37 @@ fn run(args: &Args, rep: &mut Report) {
         prop_par("recording-console", args.seed, tier.pick(40_000, 1_000_000), mk(false), body, tojson));
     rep.add("faulty-console", false, "SGR streams x chunkings x {write_all, write!} against consoles answering short counts, zero, Interrupted, WouldBlock, Other",
         prop_par("faulty-console", args.seed, tier.pick(40_000, 1_000_000), mk(true), body, tojson));
+    // runs of 64 KiB and more
+    let mk_huge = move |faults: bool| {
+        move || {
+            (
+                gen::sgr_stream(SgrStreamCfg { max_items: 8, ..cfg }),
+                gen::huge_text(false),
+                any::<u16>(),
+                prop_oneof![Just(0u8), Just(1u8), Just(5u8)],
+                proptest::collection::vec(any::<u16>(), 1..4),
+                if faults { prop_oneof![Just(Driver::WriteAll), Just(Driver::Fmt)].boxed() } else { prop_oneof![Just(Driver::Write), Just(Driver::WriteAll), Just(Driver::Vectored), Just(Driver::Fmt)].boxed() },
+                if faults { proptest::collection::vec(arb_resp(), 1..6).boxed() } else { Just(vec![]).boxed() },
+            )
+                .prop_map(|((mut items, removed), big, frac, mode, fracs, driver, script)| {
+                    gen::insert_huge(&mut items, big, frac);
+                    let bytes = gen::render(&items);
+                    let cuts = cuts_for(&bytes, mode, &fracs);
+                    (Case { hex: rt::hex(&bytes), cuts, driver, script, lits: vec![], colours: true }, removed)
+                })
+        }
+    };
+    let body_huge = |(case, _): &(Case, u64), acc: &mut Acc| {
+        acc.class(&format!("driver-{:?}", case.driver));
+        match check(case) {
+            Ok(_) => Verdict::ok(Some(digest_str(&format!("{:?}{:?}{:?}{}", case.cuts, case.driver, case.script, case.hex.len())))),
+            Err(m) => Verdict { result: Err(m), nontrivial: None },
+        }
+    };
+    rep.add("huge-runs", false, "SGR streams (0..8 items) with one printable run of 64..200 KiB x {whole, a few cuts} x {write, write_all, write_vectored, write!} against a console that accepts everything",
+        prop_par("huge-runs", args.seed, tier.pick(120, 6_000), mk_huge(false), body_huge, tojson));
+    rep.add("huge-runs-faulty-console", false, "the same x {write_all, write!} against consoles answering short counts, zero, Interrupted, WouldBlock, Other",
+        prop_par("huge-runs-faulty-console", args.seed, tier.pick(120, 6_000), mk_huge(true), body_huge, tojson));
     // formatted writes whose format string is a bare literal
     let mk_lit = |faults: bool| {
         move || {
